@@ -82,6 +82,8 @@ class DiameterAvpLoader:
             self.avps = self._get_load_avps_dictionary()
 
         if avp.vendor_id is not None: 
+            if avp.vendor_id == VENDOR_ID_DEFAULT:
+                raise KeyError(avp.code)
             return self.avps[avp.vendor_id][avp.code]
         
         return self.avps[VENDOR_ID_DEFAULT][avp.code]
